@@ -63,7 +63,8 @@ def netOp (n : NSt) (w : List String) : NSt × String :=
         | .errSyntax => "err Endpoint.Syntax"
         | .noSock => "bad-op no-sock")
   | ["unbind", sid, e] =>
-    let (s', o) := unbind n.s (num sid) (if e == "unknown" then none else epId e)
+    -- (`near:<how>:ep#k`: an endpoint that is not bound but resembles a bound one — unknown like any other)
+    let (s', o) := unbind n.s (num sid) (if e == "unknown" || e.startsWith "near:" then none else epId e)
     ({ n with s := s' }, match o with
       | .ok => "ok"
       | .noSuchBind => "err NoSuchBind"
@@ -205,6 +206,15 @@ def netOp (n : NSt) (w : List String) : NSt × String :=
   | ["dropsock", sid] =>
     if (lookupN n.s.socks (num sid)).isNone then (n, "bad-op no-sock") else
     ({ n with s := closeSock n.s (num sid) }, "ok")
+  -- a peer that comes up LATE: `reserve c` holds a loopback port that refuses connections; `connectnl` is a connect() to
+  -- it that is abandoned after its deadline (connect() keeps retrying INSIDE the call: nothing of it outlives the call);
+  -- `latelisten c` starts listening there — after the socket has been closed or dropped nobody dials it any more
+  | ["reserve", _] => (n, "ok")
+  | ["connectnl", sid, _, _] =>
+    (match lookupN n.s.socks (num sid) with
+     | some so => (n, if so.alive then "pending" else "bad-op no-sock")
+     | none => (n, "bad-op no-sock"))
+  | ["latelisten", _, _] => (n, "nobody")
   | ["monitor", sid] =>
     match lookupN n.s.socks (num sid) with
     | some so => ({ n with s := { n.s with socks := insertN n.s.socks (num sid) { so with monitor := true, events := [] } } }, "ok")
